@@ -16,7 +16,7 @@ run_demo() {
 		rm -f tests/seeded_demo.rs
 		return $rc
 	else
-		( cd $wt && timeout 600 bash "$demo_sh" >/tmp/seedverify-demo.log 2>&1 )
+		( cd $wt && timeout 900 bash "$demo_sh" "$wt" >/tmp/seedverify-demo.log 2>&1 )
 		return $?
 	fi
 }
